@@ -136,33 +136,47 @@ theorem stepReq_spec (modes : Mode → Prop) (m : Mode) (hm : modes m) (parse : 
       · cases hg
       · exact hs.files h' g hg
   | move h h' =>
+    have g := get_spec modes m hm parse W hk s hs h
+    have gf : (get m parse s h).1.files = s.files := g.2.1
     simp only [stepReq, refReq]
     cases hf : s.files h with
-    | none => exact ⟨rfl, rfl, hs⟩
+    | none =>
+      have h2 : (get m parse s h).1.files h = none := by rw [gf]; exact hf
+      have h1 : (get m parse s h).2.1 = none := by rw [g.1, hf]; rfl
+      simp only [h1, h2]
+      exact ⟨trivial, gf, g.2.2⟩
     | some f =>
-      simp only
-      split
-      · exact ⟨rfl, rfl, hs⟩
-      · refine ⟨rfl, rfl, ?_, ?_⟩
-        · intro x e he
-          simp only at he
-          cases hc : s.cache h with
-          | none => rw [hc] at he; exact hs.entries x e he
-          | some e0 =>
-            rw [hc] at he
-            simp only [set] at he
-            split at he
-            · cases he
-            · split at he
-              · cases he; exact hs.entries h _ hc
-              · exact hs.entries x e he
-        · intro x g hg
-          simp only [set] at hg
-          split at hg
-          · cases hg
-          · split at hg
-            · cases hg; exact hs.files h f hf
-            · exact hs.files x g hg
+      have h2 : (get m parse s h).1.files h = some f := by rw [gf]; exact hf
+      cases hp : parse f.content with
+      | none =>
+        have h1 : (get m parse s h).2.1 = none := by rw [g.1, hf]; exact hp
+        simp only [h1, h2, hp, Option.isNone_none, if_true]
+        exact ⟨trivial, gf, g.2.2⟩
+      | some d =>
+        have h1 : (get m parse s h).2.1 = some d := by rw [g.1, hf]; exact hp
+        simp only [h1, h2, hp, Option.isNone_some, Bool.false_eq_true, if_false]
+        split
+        · exact ⟨rfl, gf, g.2.2⟩
+        · refine ⟨rfl, by simp only [gf], ?_, ?_⟩
+          · intro x e he
+            simp only at he
+            cases hc : (get m parse s h).1.cache h with
+            | none => rw [hc] at he; exact g.2.2.entries x e he
+            | some e0 =>
+              rw [hc] at he
+              simp only [set] at he
+              split at he
+              · cases he
+              · split at he
+                · cases he; exact g.2.2.entries h _ hc
+                · exact g.2.2.entries x e he
+          · intro x y hy
+            simp only [set] at hy
+            split at hy
+            · cases hy
+            · split at hy
+              · cases hy; exact hs.files h f hf
+              · exact g.2.2.files x y hy
   | moveOut h =>
     refine ⟨rfl, rfl, ?_, ?_⟩
     · intro h' e he
